@@ -230,6 +230,7 @@ func init() {
 			if err := os.WriteFile(w.path, init, 0o644); err != nil {
 				panic(err)
 			}
+			s.RegisterCreate(w.path, false)
 			w.fileExists = true
 			if !w.tail {
 				w.expected = append(w.expected, init...)
@@ -266,6 +267,7 @@ func init() {
 						f = nil
 					}
 					w.fileExists = false
+					s.RegisterRemove(w.path)
 					if err := os.Remove(w.path); err != nil {
 						panic(err)
 					}
@@ -288,6 +290,7 @@ func init() {
 						}
 						f = h
 						w.fileExists = true
+						c15Recreated(rc, s, w.path)
 						w.opf("re-create (after the stream ended)")
 						fsnotify.SimNotify(w.path, fsnotify.Create)
 						continue
@@ -303,7 +306,11 @@ func init() {
 					f = h
 					w.fileExists = true
 					w.incDeliv, w.incWritten = 0, 0
-					w.opf("re-create")
+					if c15Recreated(rc, s, w.path) {
+						w.opf("re-create (the file system reuses the inode number of the removed file)")
+					} else {
+						w.opf("re-create")
+					}
 					fsnotify.SimNotify(w.path, fsnotify.Create)
 					if w.poll {
 						// keep the new file shorter than what was delivered until the poller has noticed it
@@ -366,6 +373,16 @@ func init() {
 		rc.Nontrivial = s.MultiChoice > 0 && len(w.expected) > 0
 		rc.Logf("%s delivered=%d expected=%d reads=%d eof=%v ops=%d", w.mode(), len(w.delivered), len(w.expected), w.reads, w.readerEOF, len(w.ops))
 	}
+}
+
+// c15Recreated registers the file just created at path; the tape decides whether the file system hands it the
+// inode number of the removed file (possible only when no handle on that one is open any more).
+func c15Recreated(rc *RunCtx, s *simrt.Sim, path string) bool {
+	reused := s.RegisterCreate(path, rc.Tape.WBool(1, 2))
+	if reused {
+		rc.Fired["inode-number-reused"]++
+	}
+	return reused
 }
 
 func c15Opens(s *simrt.Sim, path string) int {
